@@ -17,6 +17,7 @@ void scen_c13(mt_case *);
 void scen_c14(mt_case *);
 void scen_c15_env(mt_case *);
 void scen_c15_hist(mt_case *);
+void scen_c16(mt_case *);
 void scen_c17(mt_case *);
 void scen_c17_mtbb(mt_case *);
 void scen_c18(mt_case *);
@@ -40,6 +41,7 @@ const mt_scenario mt_scenarios[] = {
   { 14, "C14 once", scen_c14 },
   { 15, "C15 environment", scen_c15_env },
   { 35, "C15 init/fini histories", scen_c15_hist },
+  { 16, "C16 pthread differential", scen_c16 },
   { 17, "C17 bulk fork-join (C API)", scen_c17 },
   { 27, "C17 mtbb task_group / parallel_for", scen_c17_mtbb },
   { 18, "C18 DAG recorder totals", scen_c18 },
